@@ -33,7 +33,7 @@ func (r *Rng) Intn(n int) int {
 	}
 	return int(r.U64() % uint64(n))
 }
-func (r *Rng) Bool() bool       { return r.U64()&1 == 1 }
+func (r *Rng) Bool() bool        { return r.U64()&1 == 1 }
 func (r *Rng) Chance(p int) bool { return r.Intn(100) < p }
 func (r *Rng) Bytes(n int) []byte {
 	b := make([]byte, n)
@@ -104,30 +104,30 @@ func (d *Driver) Close() {
 // ---------- results ----------
 
 type Violation struct {
-	Property string         `json:"property"`
-	Kind     string         `json:"kind"` // "oracle" (property fails on impl) | "correspondence" (model≠impl, property not shown to fail)
-	Key      string         `json:"key"`  // classifier key matched against KNOWN_FINDINGS.jsonl
-	What     string         `json:"what"`
-	Case     map[string]any `json:"case"`
-	Obligation string       `json:"obligation,omitempty"`
+	Property   string         `json:"property"`
+	Kind       string         `json:"kind"` // "oracle" (property fails on impl) | "correspondence" (model≠impl, property not shown to fail)
+	Key        string         `json:"key"`  // classifier key matched against KNOWN_FINDINGS.jsonl
+	What       string         `json:"what"`
+	Case       map[string]any `json:"case"`
+	Obligation string         `json:"obligation,omitempty"`
 }
 
 type Result struct {
-	Property    string         `json:"property"`
-	Tier        string         `json:"tier"`
-	Seed        uint64         `json:"seed"`
-	Evaluations int            `json:"evaluations"`
-	Distinct    int            `json:"distinct_nontrivial"`
-	Rule        string         `json:"rule"`
-	Samples     []any          `json:"samples"`
-	Hist        map[string]int `json:"distribution"`
-	ModelCompared int          `json:"traces_validated_against_impl"`
-	Violations  []Violation    `json:"violations"`
-	Notes       []string       `json:"notes,omitempty"`
+	Property      string         `json:"property"`
+	Tier          string         `json:"tier"`
+	Seed          uint64         `json:"seed"`
+	Evaluations   int            `json:"evaluations"`
+	Distinct      int            `json:"distinct_nontrivial"`
+	Rule          string         `json:"rule"`
+	Samples       []any          `json:"samples"`
+	Hist          map[string]int `json:"distribution"`
+	ModelCompared int            `json:"traces_validated_against_impl"`
+	Violations    []Violation    `json:"violations"`
+	Notes         []string       `json:"notes,omitempty"`
 
-	mu       sync.Mutex
-	seen     map[[16]byte]struct{}
-	vioSeen  map[string]int
+	mu      sync.Mutex
+	seen    map[[16]byte]struct{}
+	vioSeen map[string]int
 }
 
 func NewResult(prop, tier string, seed uint64) *Result {
